@@ -217,6 +217,7 @@ def check(chk):
     _resolve_incoming(chk, repo)
     _ball_save_conservation(chk, repo)
     _bounded_waits(chk, repo)
+    _wakeups(chk, repo)
 
     # ------------------------------------------------------------- BOOL-1
     n_h = 0
@@ -411,6 +412,53 @@ def _bounded_waits(chk, repo):
            text="late confirm wait bounded")
 
 
+def _wakeups(chk, repo):
+    """WAKE-5: coroutines of the ball devices sleep on futures other code resolves.  Every list of such waiters is resolved completely.
+    TIMEOUT-5 (incoming): every announced ball whose timeout passed is removed from the expected balls and reported lost - exactly those."""
+    from sa.helpers import waiter_lists, exact_selection
+    nf = nr = 0
+    for cls in repo.all_classes("mpf/devices/ball_device/"):
+        a, b = waiter_lists(chk, "WAKE-5", cls)
+        nf += a
+        nr += b
+    chk.ob("WAKE-5", "waiter lists of the ball-device classes examined", nf >= 2 and nr >= 2, "mpf/devices/ball_device:1", detail="%d lists, %d resolver loops" % (nf, nr),
+           nontrivial=False)
+    f = repo.func(IB, "IncomingBallsHandler._run")
+    chk.analysed(f)
+    cfg = f.cfg()
+    app = [(n, c) for n, c in cfg.calls_named("append") if src(c.func.value) == "timeouts"]
+    chk.need(len(app) == 1, "TIMEOUT-5", "the incoming-ball watchdog collects the timed-out balls", f)
+    n, c = app[0]
+    head = [h for h in cfg.nodes if h.kind == "loop" and any(y is c for y in ast.walk(h.ast))]
+    chk.need(head, "TIMEOUT-5", "the incoming-ball watchdog scans the expected balls", f)
+    h = head[-1]
+    v = h.ast.target.id if isinstance(h.ast.target, ast.Name) else "incoming_ball"
+    chk.ob("TIMEOUT-5", "the watchdog looks at every expected ball", src(h.ast.iter) in ("self._incoming_balls", "list(self._incoming_balls)", "self._incoming_balls[:]"),
+           f.where(h.ast), construct=f.ident, text="watchdog scan range")
+    exact_selection(chk, "TIMEOUT-5", "exactly the balls whose timeout passed are taken as lost", f, cfg, n, h, {("%s.is_timeouted" % v, True)},
+                    text="timed-out balls collected exactly")
+    rm = [(n_, c_) for n_, c_ in cfg.calls_named("remove") if src(c_.func.value) == "self._incoming_balls"]
+    lost = [(n_, c_) for n_, c_ in cfg.calls_named("lost_incoming_ball")]
+    ok = len(rm) == 1 and len(lost) == 1
+    for lst, what in ((rm, "no longer expected"), (lost, "reported lost (path restore)")):
+        for n_, c_ in lst:
+            lh = [x for x in cfg.nodes if x.kind == "loop" and any(y is c_ for y in ast.walk(x.ast))]
+            good = bool(lh) and src(lh[-1].ast.iter) == "timeouts" and not inloop_any_guard(cfg, n_, lh[-1]) and \
+                not any(isinstance(y, (ast.Break, ast.Return, ast.Continue)) for y in ast.walk(lh[-1].ast))
+            ok = ok and good
+    chk.ob("TIMEOUT-5", "every timed-out ball is removed from the expected balls and reported lost, unconditionally", ok, f.where(), construct=f.ident,
+           text="timed-out balls handled")
+    if lost:
+        sv = kwarg(lost[0][1], "source")
+        chk.ob("TIMEOUT-5", "the loss is reported with the ball's own source", sv is not None and src(sv).endswith(".source"), f.where(lost[0][1]), construct=f.ident,
+               text="lost ball source")
+
+
+def inloop_any_guard(cfg, node, head):
+    from sa.helpers import inloop_guards
+    return bool(inloop_guards(cfg, node.id, head.id))
+
+
 def _ball_save_conservation(chk, repo):
     """SAVE-5: a saved ball is a ball taken out of the drain and requested again -- one for one.  What the drain handler keeps back
     it schedules; what is scheduled goes to exactly one sink; the pending count accumulates until it is handed over; the hand-over
@@ -560,6 +608,10 @@ def battery():
         M("hand-operated device waits for ever for any request", OB, "            if (self.ball_device.config['mechanical_eject'] or\n                    self.ball_device.config['player_controlled_eject_event']) and eject_request.player_controlled:\n                timeout = None", "            if (self.ball_device.config['mechanical_eject'] or\n                    self.ball_device.config['player_controlled_eject_event']):\n                timeout = None", "TIMEOUT-5"),
         M("confirm wait unbounded", OB, "        timeout = eject_request.eject_timeout\n        self.info_log(\"Wait for confirm with timeout %s\", timeout)", "        timeout = None\n        self.info_log(\"Wait for confirm with timeout %s\", timeout)", "TIMEOUT-5"),
         M("twin: timeout condition with operands swapped", OB, "            if (self.ball_device.config['mechanical_eject'] or\n                    self.ball_device.config['player_controlled_eject_event']) and eject_request.player_controlled:\n                timeout = None", "            if eject_request.player_controlled and (self.ball_device.config['player_controlled_eject_event'] or\n                    self.ball_device.config['mechanical_eject']):\n                timeout = None", None),
+        M("only the first ball-count waiter is woken", BC, "            if not future.done():\n                future.set_result(count)\n", "            if not future.done():\n                future.set_result(count)\n                break\n", "WAKE-5"),
+        M("ball-count waiters forgotten before they are woken", BC, "        for future in self._ball_count_changed_futures:\n            if not future.done():\n                future.set_result(count)\n\n        # reset futures\n        self._ball_count_changed_futures = []", "        waiting = self._ball_count_changed_futures = []\n        for future in self._ball_count_changed_futures:\n            if not future.done():\n                future.set_result(count)", "WAKE-5"),
+        M("timed-out incoming ball stays expected", IB, "                self._incoming_balls.remove(incoming_ball)\n", "                pass\n", "TIMEOUT-5"),
+        M("incoming timeout reported only for the first", IB, "            for incoming_ball in timeouts:\n                await self.ball_device.lost_incoming_ball(source=incoming_ball.source)", "            for incoming_ball in timeouts:\n                await self.ball_device.lost_incoming_ball(source=incoming_ball.source)\n                break", "TIMEOUT-5"),
     ]
 
 
